@@ -94,3 +94,9 @@ Theorem C05_layout_independent : forall d q in1 in2,
   exists q1 q2, parseQuery d 0 in1 = POk q1 /\ parseQuery d 0 in2 = POk q2 /\ erase_qdoc q1 = erase_qdoc q2.
 Proof. exact query_layout_independent. Qed.
 Print Assumptions C05_layout_independent.
+
+(* ... and unambiguous: one text is not the token sequence of two different documents. *)
+Theorem C05_grammar_unambiguous : forall d q1 q2 input,
+  doc_wok d q1 -> doc_wok d q2 -> toks d input (flat_doc q1) -> toks d input (flat_doc q2) -> erase_qdoc q1 = erase_qdoc q2.
+Proof. exact query_unambiguous. Qed.
+Print Assumptions C05_grammar_unambiguous.
